@@ -1,0 +1,17 @@
+//go:build verif
+
+// Export shim for the external verification harness (/verif, property C17 part B: storage-key
+// injectivity). Compiled only with the build tag `verif`. Thin wrappers that make the unexported
+// put/get storage helpers reachable as black-box key constructors; no contract logic lives here.
+
+package signature_manager
+
+import "github.com/polynetwork/poly/native"
+
+func VerifPutSigInfo(native *native.NativeService, id []byte, sigInfo *SigInfo) {
+	putSigInfo(native, id, sigInfo)
+}
+
+func VerifGetSigInfo(native *native.NativeService, id []byte) (*SigInfo, error) {
+	return getSigInfo(native, id)
+}
